@@ -42,12 +42,95 @@ type Prog struct {
 	// Forwarders lists the outlined pairs the loader collapsed (see collapseForwarders)
 	Forwarders []string
 	// Renamed lists the helpers that were recognised under a new name (see resolveRenamed)
-	Renamed []string
+	Renamed   []string
+	callerIdx map[*ssa.Function]map[string]bool
+	// Inlined: what the loader did about helpers that are new since the reference tree (see inlinefresh.go)
+	Inlined []string
+	// Threaded: number of result merges of inlined helpers that were given back their direct edges (normphi.go)
+	Threaded int
+	OrigDir string
 }
 
 // Load type-checks /repo from source (no tests), builds SSA with generics instantiated.
 // Fails closed: zero packages or any error is fatal for the caller.
 func Load(repo string, env []string) (*Prog, error) {
+	p, err := loadTree(repo, env)
+	if err != nil || len(freshFuncs) == 0 || os.Getenv("SSTCHECK_NOINLINE") != "" {
+		return p, err
+	}
+	// helpers that were extracted since the reference tree: analyse the program with their calls inlined (inlinefresh.go)
+	keys := map[string]bool{}
+	for fn := range freshFuncs {
+		o, ok := fn.Object().(*types.Func)
+		if !ok {
+			continue
+		}
+		// helpers that cannot be called from outside the module: an unexported name, or a method of an unexported type
+		internal := !o.Exported()
+		if sig, isSig := o.Type().(*types.Signature); isSig && sig.Recv() != nil {
+			rt := sig.Recv().Type()
+			if pt, isP := rt.(*types.Pointer); isP {
+				rt = pt.Elem()
+			}
+			if nt, isN := rt.(*types.Named); isN && !nt.Obj().Exported() {
+				internal = true
+			}
+		}
+		if internal {
+			keys[ObjKey(o)] = true
+		}
+	}
+	if len(keys) == 0 {
+		return p, nil
+	}
+	dir, n, notes, ierr := inlineFresh(repo, env, keys)
+	if dir != "" {
+		scratchDirs = append(scratchDirs, dir) // removed by main when the rules are done (they read files of the tree)
+	}
+	if ierr != nil || n == 0 {
+		p.Inlined = append(notes, "no call of a new helper could be inlined")
+		return p, nil
+	}
+	// a second load, of the normalised copy: every table that is keyed by SSA functions starts afresh
+	fwdAlias, fwdTarget = map[*ssa.Function]*ssa.Function{}, map[*ssa.Function]*ssa.Function{}
+	renamedKey, renamedType = map[*ssa.Function]string{}, map[*types.TypeName]string{}
+	freshFuncs = map[*ssa.Function]bool{}
+	domCache = map[*ssa.Function]map[*ssa.BasicBlock]*ssa.BasicBlock{}
+	p2, err2 := loadTree(dir, env)
+	if err2 != nil {
+		// the normalised copy does not build (it should): fall back to the tree as it is
+		fwdAlias, fwdTarget = map[*ssa.Function]*ssa.Function{}, map[*ssa.Function]*ssa.Function{}
+		renamedKey, renamedType = map[*ssa.Function]string{}, map[*types.TypeName]string{}
+		freshFuncs = map[*ssa.Function]bool{}
+		domCache = map[*ssa.Function]map[*ssa.BasicBlock]*ssa.BasicBlock{}
+		p, err = loadTree(repo, env)
+		if p != nil {
+			p.Inlined = append(notes, "the copy with the inlined helpers did not load: "+err2.Error())
+		}
+		return p, err
+	}
+	p2.Inlined = notes
+	p2.OrigDir = repo
+	return p2, nil
+}
+
+// scratchDirs: directories the loader made under TMPDIR; cleanScratch removes them.
+var scratchDirs []string
+
+func cleanScratch() {
+	if os.Getenv("SSTCHECK_KEEPNORM") != "" {
+		for _, d := range scratchDirs {
+			fmt.Fprintln(os.Stderr, "kept", d)
+		}
+		return
+	}
+	for _, d := range scratchDirs {
+		os.RemoveAll(d)
+	}
+	scratchDirs = nil
+}
+
+func loadTree(repo string, env []string) (*Prog, error) {
 	cfg := &packages.Config{
 		Mode:  packages.LoadAllSyntax,
 		Dir:   repo,
@@ -135,8 +218,13 @@ func Load(repo string, env []string) (*Prog, error) {
 	sort.Slice(p.modFns, func(i, j int) bool { return p.modFns[i].String() < p.modFns[j].String() })
 	p.threadStoredConditions()
 	p.normalizeComparisons()
+	p.Threaded = p.threadInlinedResults()
+	theProg = p
 	return p, nil
 }
+
+// theProg: the program that was loaded last (for helpers that need call sites and have no Report at hand).
+var theProg *Prog
 
 func inModule(fn *ssa.Function) bool {
 	pk := fnPkg(fn)
@@ -859,11 +947,14 @@ func (p *Prog) CallSitesOf(fn *ssa.Function) []Site {
 var funcsRefJSON []byte
 
 type declFunc struct {
-	Key   string `json:"key"`
-	Pkg   string `json:"pkg"`
-	Recv  string `json:"recv"`
-	Sig   string `json:"sig"`
-	Order int    `json:"order"`
+	Key     string   `json:"key"`
+	Pkg     string   `json:"pkg"`
+	Recv    string   `json:"recv"`
+	Sig     string   `json:"sig"`
+	Shape   string   `json:"shape"`   // the signature with the receiver as first parameter: f(t, a) and t.f(a) are one shape
+	Callers []string `json:"callers"` // keys of the declared functions that call it statically
+	Callees []string `json:"callees"` // keys of what it calls statically (module and library functions)
+	Order   int      `json:"order"`
 }
 
 var renamedKey = map[*ssa.Function]string{}
@@ -950,8 +1041,82 @@ func (p *Prog) declaredFuncs() []declFunc {
 		if pp := fnPkg(fn); pp != nil {
 			pk = shortPkg(pp.Path())
 		}
-		out = append(out, declFunc{Key: k, Pkg: pk, Recv: recvString(fn), Sig: sigString(fn), Order: i})
+		shape := sigString(fn)
+		if r := recvString(fn); r != "" {
+			ptr := ""
+			if _, isP := fn.Signature.Recv().Type().(*types.Pointer); isP {
+				ptr = "*"
+			}
+			if strings.HasPrefix(shape, "func()") {
+				shape = "func(" + ptr + r + ")" + shape[len("func()"):]
+			} else {
+				shape = "func(" + ptr + r + ", " + shape[len("func("):]
+			}
+		}
+		out = append(out, declFunc{Key: k, Pkg: pk, Recv: recvString(fn), Sig: sigString(fn), Shape: shape, Callers: p.staticCallers(fn), Callees: staticCallees(fn), Order: i})
 	}
+	return out
+}
+
+// staticCallees: keys of the functions and interface methods fn (with its closures) calls.
+func staticCallees(fn *ssa.Function) []string {
+	set := map[string]bool{}
+	for _, g := range closuresOf(fn) {
+		eachInstr(g, func(s Site) {
+			if c, ok := s.Instr.(ssa.CallInstruction); ok {
+				if k := CalleeKey(c); k != "" && !strings.HasPrefix(k, "builtin.") {
+					set[k] = true
+				}
+			}
+		})
+	}
+	var out []string
+	for k := range set {
+		out = append(out, k)
+	}
+	sort.Strings(out)
+	return out
+}
+
+// staticCallers: keys of the declared module functions (closures count for their outermost function) that call fn.
+func (p *Prog) staticCallers(fn *ssa.Function) []string {
+	if p.callerIdx == nil {
+		p.callerIdx = map[*ssa.Function]map[string]bool{}
+		for _, g := range p.modFns {
+			o := g
+			for o.Parent() != nil {
+				o = o.Parent()
+			}
+			ok := FuncKey(o)
+			if ok == "" {
+				continue
+			}
+			for _, b := range g.Blocks {
+				for _, in := range b.Instrs {
+					for _, op := range in.Operands(nil) {
+						f, isF := (*op).(*ssa.Function)
+						if !isF || f == g {
+							continue
+						}
+						if f.Origin() != nil {
+							f = f.Origin()
+						}
+						if p.callerIdx[f] == nil {
+							p.callerIdx[f] = map[string]bool{}
+						}
+						p.callerIdx[f][ok] = true
+					}
+				}
+			}
+		}
+	}
+	var out []string
+	for k := range p.callerIdx[fn] {
+		if k != FuncKey(fn) {
+			out = append(out, k)
+		}
+	}
+	sort.Strings(out)
 	return out
 }
 
@@ -975,8 +1140,9 @@ func (p *Prog) resolveRenamed() {
 			}
 		}
 	}
-	type group struct{ pkg, recv, sig string }
+	type group struct{ pkg, shape string }
 	missing := map[group][]declFunc{}
+	var missingAll []declFunc
 	for _, d := range ref {
 		if _, ok := p.funcs[d.Key]; !ok {
 			// only unexported names: an exported function that is gone is a changed API, not a renamed helper
@@ -984,20 +1150,57 @@ func (p *Prog) resolveRenamed() {
 			if name == "" || !(name[0] >= 'a' && name[0] <= 'z') {
 				continue
 			}
-			g := group{d.Pkg, d.Recv, d.Sig}
+			g := group{d.Pkg, d.Shape}
 			missing[g] = append(missing[g], d)
+			missingAll = append(missingAll, d)
 		}
 	}
+	fresh := map[group][]declFunc{}
+	var freshAll []declFunc
+	for _, d := range cur {
+		if !refKeys[d.Key] {
+			g := group{d.Pkg, d.Shape}
+			fresh[g] = append(fresh[g], d)
+			freshAll = append(freshAll, d)
+		}
+	}
+	defer func() {
+		// what is left of the new functions: helpers that were extracted since the reference tree
+		for _, d := range freshAll {
+			if fn := curByKey[d.Key]; fn != nil {
+				if _, renamed := renamedKey[fn]; !renamed {
+					freshFuncs[fn] = true
+				}
+			}
+		}
+	}()
 	if len(missing) == 0 {
 		return
 	}
-	fresh := map[group][]declFunc{}
-	for _, d := range cur {
-		if !refKeys[d.Key] {
-			g := group{d.Pkg, d.Recv, d.Sig}
-			fresh[g] = append(fresh[g], d)
+	taken := map[string]bool{}
+	give := func(from declFunc, to declFunc, how string) {
+		fn := curByKey[from.Key]
+		if fn == nil || taken[from.Key] {
+			return
 		}
+		taken[from.Key] = true
+		delete(p.funcs, from.Key)
+		// closures of fn are keyed below their parent: re-key them
+		var kids []*ssa.Function
+		for k, f := range p.funcs {
+			if strings.HasPrefix(k, from.Key+"$") && isAncestor(fn, f) {
+				delete(p.funcs, k)
+				kids = append(kids, f)
+			}
+		}
+		renamedKey[fn] = to.Key
+		p.funcs[to.Key] = fn
+		for _, f := range kids {
+			p.funcs[FuncKey(f)] = f
+		}
+		p.Renamed = append(p.Renamed, from.Key+" is "+to.Key+how)
 	}
+	resolved := map[string]bool{}
 	for g, ms := range missing {
 		fs := fresh[g]
 		if len(fs) != len(ms) {
@@ -1006,21 +1209,79 @@ func (p *Prog) resolveRenamed() {
 		sort.Slice(ms, func(i, j int) bool { return ms[i].Order < ms[j].Order })
 		sort.Slice(fs, func(i, j int) bool { return fs[i].Order < fs[j].Order })
 		for i := range ms {
-			fn := curByKey[fs[i].Key]
-			if fn == nil {
+			give(fs[i], ms[i], "")
+			resolved[ms[i].Key] = true
+		}
+	}
+	// second chance, for a helper whose signature changed as well: the one new function of the package that is called
+	// by a function that used to call the missing one, when that is the only missing function those callers had
+	for _, m := range missingAll {
+		if resolved[m.Key] || len(m.Callers) == 0 {
+			continue
+		}
+		callers := map[string]bool{}
+		for _, c := range m.Callers {
+			callers[c] = true
+		}
+		var cands []declFunc
+		for _, f := range freshAll {
+			if f.Pkg != m.Pkg || taken[f.Key] {
 				continue
 			}
-			delete(p.funcs, fs[i].Key)
-			// closures of fn are keyed below their parent: re-key them
-			for k, f := range p.funcs {
-				if strings.HasPrefix(k, fs[i].Key+"$") && isAncestor(fn, f) {
-					delete(p.funcs, k)
-					defer func(f *ssa.Function) { p.funcs[FuncKey(f)] = f }(f)
+			for _, c := range f.Callers {
+				if callers[c] {
+					cands = append(cands, f)
+					break
 				}
 			}
-			renamedKey[fn] = ms[i].Key
-			p.funcs[ms[i].Key] = fn
-			p.Renamed = append(p.Renamed, fs[i].Key+" is "+ms[i].Key)
+		}
+		rivals := 0
+		for _, o := range missingAll {
+			if o.Key == m.Key || resolved[o.Key] || o.Pkg != m.Pkg {
+				continue
+			}
+			for _, c := range o.Callers {
+				if callers[c] {
+					rivals++
+					break
+				}
+			}
+		}
+		if len(cands) == 1 && rivals == 0 {
+			give(cands[0], m, " (by its callers)")
+			resolved[m.Key] = true
+			continue
+		}
+		// several new functions below those callers (helpers were extracted in the same commit): the one that calls
+		// what the missing function called
+		if len(cands) > 1 && rivals == 0 && len(m.Callees) > 0 {
+			want := map[string]bool{}
+			for _, c := range m.Callees {
+				want[c] = true
+			}
+			best, bestScore, second := -1, 0.0, 0.0
+			for i, f := range cands {
+				inter := 0
+				for _, c := range f.Callees {
+					if want[c] {
+						inter++
+					}
+				}
+				union := len(want) + len(f.Callees) - inter
+				score := 0.0
+				if union > 0 {
+					score = float64(inter) / float64(union)
+				}
+				if score > bestScore {
+					best, second, bestScore = i, bestScore, score
+				} else if score > second {
+					second = score
+				}
+			}
+			if best >= 0 && bestScore >= 0.6 && second < 0.3 {
+				give(cands[best], m, " (by its callers and what it calls)")
+				resolved[m.Key] = true
+			}
 		}
 	}
 	sort.Strings(p.Renamed)
